@@ -4,7 +4,7 @@ use crate::bddmodel::structural_invariants;
 use crate::calls::{self, Abs, Call, Raw};
 use crate::engine::*;
 use crate::props::sem::{build_native_like, case_hash, sem_case, Backend, SemCase};
-use crate::sut;
+use crate::sut::{self, Sort};
 use adf_bdd::adf::Adf;
 use adf_bdd::datatypes::adf::VarContainer;
 use adf_bdd::datatypes::{BddNode, Term, Var};
@@ -134,6 +134,76 @@ fn twin_initial_nodes(fresh_after: &Adf, _call: &Call) -> usize {
     fresh_after.bdd.nodes.len()
 }
 
+/// A store that received its nodes over the channel and was repaired with fix_import answers like the store that
+/// built the nodes itself (the answers of an object do not depend on how it got into its state).
+fn c11_received(prog: &crate::bddmodel::Program, st: &mut Stats) -> CheckResult {
+    use crate::bddmodel::Shadow;
+    use adf_bdd::obdd::Bdd;
+    let (s, r) = crossbeam_channel::unbounded();
+    let mut sh = Shadow::with_bdd(prog.k as usize, Bdd::with_sender(s)).with_spread(prog.spread);
+    for (i, op) in prog.ops.iter().enumerate() {
+        sh.step(op).map_err(|e| format!("producer step {i}: {e}"))?;
+    }
+    let mut mirror = Bdd::with_receiver(r);
+    let _ = mirror.recv(Term(sh.bdd.nodes.len() + 1));
+    if mirror.nodes != sh.bdd.nodes {
+        return Err("the receiver's node table differs from the producer's after taking everything".into());
+    }
+    mirror.fix_import();
+    let handles: Vec<Term> = sh.issued.iter().map(|(h, _, _)| *h).collect();
+    let vars: Vec<usize> = sh.vm.clone();
+    for h in &handles {
+        if sh.bdd.var_dependencies(*h) != mirror.var_dependencies(*h) {
+            return Err(format!("var_dependencies({}) differs between the producing store and the repaired receiver", h.value()));
+        }
+        for memo in [false, true] {
+            if sh.bdd.paths(*h, memo) != mirror.paths(*h, memo) {
+                return Err(format!("paths({}, {memo}) differs between the producing store and the repaired receiver", h.value()));
+            }
+        }
+        if sh.bdd.models(*h, false) != mirror.models(*h, false) {
+            return Err(format!("models({}, false) differs between the producing store and the repaired receiver", h.value()));
+        }
+        if sh.bdd.max_depth(*h) != mirror.max_depth(*h) {
+            return Err(format!("max_depth({}) differs between the producing store and the repaired receiver", h.value()));
+        }
+    }
+    let mut restricts = 0usize;
+    for h in handles.iter().take(12) {
+        for v in &vars {
+            for val in [false, true] {
+                let a = sh.bdd.restrict(*h, adf_bdd::datatypes::Var(*v), val);
+                let b = mirror.restrict(*h, adf_bdd::datatypes::Var(*v), val);
+                if a != b {
+                    return Err(format!(
+                        "restrict({}, {v}, {val}) = {} on the producing store but {} on the repaired receiver (identical node tables before)",
+                        h.value(),
+                        a.value(),
+                        b.value()
+                    ));
+                }
+                restricts += 1;
+            }
+        }
+    }
+    if mirror.nodes != sh.bdd.nodes {
+        return Err("after the same calls the node tables of producer and repaired receiver differ".into());
+    }
+    // the same operations once more on the receiver: same handles as the producer got
+    let mut sh2 = Shadow::with_bdd(prog.k as usize, mirror).with_spread(prog.spread);
+    for (i, op) in prog.ops.iter().enumerate() {
+        sh2.step(op).map_err(|e| format!("repaired receiver used as a store, step {i}: {e}"))?;
+    }
+    let again: Vec<Term> = sh2.issued.iter().map(|(h, _, _)| *h).collect();
+    if again != handles {
+        return Err("the same operations return other handles on the repaired receiver than on the producer".into());
+    }
+    if sh.bdd.nodes.len() >= 6 && restricts >= 8 {
+        st.nontrivial(stable_hash(prog), || json!({"k": prog.k, "ops": prog.ops.len(), "nodes": sh.bdd.nodes.len()}));
+    }
+    Ok(Outcome::Ok)
+}
+
 pub fn c11(tier: Tier) -> PropSpec {
     PropSpec {
         id: "C11",
@@ -157,7 +227,8 @@ pub fn c11(tier: Tier) -> PropSpec {
                     .boxed()
             },
             c11_check,
-        )],
+        ),
+        Part::new("received-store", tier.pick(15000, 150000), || crate::bddmodel::program(6, 30, false), c11_received)],
     }
 }
 
@@ -338,6 +409,102 @@ fn c14_check(c: &PersistCase, st: &mut Stats) -> CheckResult {
     Ok(Outcome::Ok)
 }
 
+/// Wide ADFs (65..90 statements) in which one condition is a long chain over all other statements: diagrams with
+/// children of very different depth and more variables than a machine word has bits.
+#[derive(Clone, Debug, Serialize, Deserialize, Hash)]
+pub struct DeepPersist {
+    pub n: u8,
+    /// per statement >= 1: (kind of its own condition: 0 verum, 1 falsum, 2 negation of its predecessor, 3 itself), (connective
+    /// joining it into statement 0's chain: false and / true or), polarity in the chain
+    pub spec: Vec<(u8, bool, bool)>,
+    pub backend: u8,
+    pub trip: RoundTrip,
+}
+
+fn deep_persist_case() -> BoxedStrategy<DeepPersist> {
+    (65u8..=90, proptest::collection::vec((0u8..4, any::<bool>(), any::<bool>()), 90), 0u8..4, prop_oneof![Just(RoundTrip::SerdeJson), Just(RoundTrip::NodeList)])
+        .prop_map(|(n, spec, backend, trip)| DeepPersist { n, spec, backend, trip })
+        .boxed()
+}
+
+fn c14_deep(c: &DeepPersist, st: &mut Stats) -> CheckResult {
+    use crate::formula::F;
+    let n = c.n as usize;
+    let mut acs: Vec<F> = vec![F::Top; n];
+    let mut selfish = 0;
+    let mut chain: Option<F> = None;
+    for i in (1..n).rev() {
+        let (kind, or, pol) = c.spec[i % c.spec.len()];
+        acs[i] = match kind {
+            0 => F::Top,
+            1 => F::Bot,
+            2 if i > 1 => F::not(F::Atom(i - 1)),
+            3 if selfish < 3 => {
+                selfish += 1;
+                F::Atom(i)
+            }
+            _ => F::Top,
+        };
+        let lit = if pol { F::Atom(i) } else { F::not(F::Atom(i)) };
+        chain = Some(match chain {
+            None => lit,
+            Some(rest) => {
+                if or {
+                    F::or(lit, rest)
+                } else {
+                    F::and(lit, rest)
+                }
+            }
+        });
+    }
+    acs[0] = chain.unwrap();
+    let adf = crate::gen::AdfCase::simple(acs);
+    let text = adf.text();
+    let be = backend_of(c.backend);
+    let res = sut::with_parser_opt(&text, Sort::None, false, |p| -> Result<usize, String> {
+        let mut orig = build_native_like(p, be);
+        let mut imp = match c.trip {
+            RoundTrip::SerdeJson => serde_round_trip(&orig)?,
+            RoundTrip::NodeList => node_list_round_trip(&orig)?,
+        };
+        if imp.bdd.nodes != orig.bdd.nodes {
+            return Err(format!("{:?}: node table differs after the round trip ({} vs {} nodes)", c.trip, imp.bdd.nodes.len(), orig.bdd.nodes.len()));
+        }
+        if imp.ac != orig.ac {
+            return Err(format!("{:?}: acceptance handles differ after the round trip", c.trip));
+        }
+        if sut::names_of(&imp) != sut::names_of(&orig) {
+            return Err(format!("{:?}: statement names differ after the round trip", c.trip));
+        }
+        for call in [Call::Grounded, Call::Complete, Call::Stable, Call::StablePrefilter, Call::CountA, Call::StableNg(0), Call::TwoValNg(1)] {
+            let a = calls::abstract_raw(&calls::exec(&mut imp, &call).map_err(|e| format!("re-imported {call:?}: {e}"))?, true);
+            let b = calls::abstract_raw(&calls::exec(&mut orig, &call)?, true);
+            if a != b {
+                return Err(format!("{:?}: re-imported object answers {call:?} differently from the original", c.trip));
+            }
+        }
+        // a second trip from the imported object
+        let again = match c.trip {
+            RoundTrip::SerdeJson => serde_round_trip(&imp)?,
+            RoundTrip::NodeList => node_list_round_trip(&imp)?,
+        };
+        if again.bdd.nodes != imp.bdd.nodes || again.ac != imp.ac {
+            return Err(format!("{:?}: a second round trip changes the object", c.trip));
+        }
+        Ok(orig.bdd.nodes.len())
+    });
+    let nodes = match res {
+        Err(e) => return Err(format!("well-formed input rejected: {e}")),
+        Ok(Err(e)) => return Err(e),
+        Ok(Ok(x)) => x,
+    };
+    st.label(&format!("deep:{:?}", c.trip));
+    if nodes >= 60 {
+        st.nontrivial(stable_hash(c), || json!({"statements": n, "nodes": nodes, "round_trip": format!("{:?}", c.trip), "backend": format!("{be:?}")}));
+    }
+    Ok(Outcome::Ok)
+}
+
 pub fn c14(tier: Tier) -> PropSpec {
     PropSpec {
         id: "C14",
@@ -366,6 +533,8 @@ pub fn c14(tier: Tier) -> PropSpec {
             },
             c14_check,
         ),
+        // 65..90 statements, one condition a long chain over all others
+        Part::with_shrink("deep-roundtrip", tier.pick(320, 4000), 200, deep_persist_case, c14_deep),
         // the web service's real database layer (SimplifiedAdf <-> Adf through the MongoDB stub): problems
         // are parsed, stored, loaded and solved; a tenth of them have 11..14 statements
         Part::with_shrink(
